@@ -32,6 +32,8 @@ thread_local! {
 pub enum Msg {
     Bin(Vec<u8>),
     Text,
+    /// a text message with this content
+    TextOf(String),
     Ping,
 }
 
@@ -39,6 +41,7 @@ fn to_ws(m: &Msg) -> Message {
     match m {
         Msg::Bin(b) => Message::Binary(b.clone()),
         Msg::Text => Message::Text("hello".into()),
+        Msg::TextOf(s) => Message::Text(s.clone().into()),
         Msg::Ping => Message::Ping(vec![1, 2, 3]),
     }
 }
@@ -478,6 +481,29 @@ pub fn sites(tier: Tier) -> Vec<Site> {
                 judge_adaptor(acc, i, guard(|| adaptor_reads_exact(script, total, span)), &stream, &format!("messages of {m} bytes{}, read_exact of {span}", if alt { " alternating with 5-byte ones" } else { "" }), replay);
             }));
     }
+    // 1a-text. what a text message SAYS is nobody's business: texts of every length around round numbers, ASCII and with
+    // 2-, 3- and 4-byte characters at every alignment, in front of, between and behind binary messages
+    {
+        let stream: Vec<u8> = (0..6).map(|i| 0x61 + i as u8).collect();
+        let mut texts: Vec<String> = vec![String::new(), "a".repeat(300), "a".repeat(70_000)];
+        for lead in 0..4usize {
+            for ch in ['\u{e9}', '\u{30a2}', '\u{1f600}'] {
+                for n in [30usize, 40, 60, 64, 100, 128, 150, 256, 1024] { texts.push(format!("{}{}", "!".repeat(lead), ch.to_string().repeat(n))); }
+            }
+        }
+        let texts = Arc::new(texts);
+        let n = texts.len() as u64 * 3;
+        sites.push(Site::new("text-contents", n,
+            "a 6-byte stream in two binary messages with one text message {in front, between, behind}: empty, 300 and 70 000 ASCII characters, runs of 30..1024 two-, three- and four-byte characters behind 0..3 ASCII characters",
+            move |i, acc| {
+                let t = &texts[(i / 3) as usize];
+                let mut script: Vec<Msg> = vec![Msg::Bin(stream[..2].to_vec()), Msg::Bin(stream[2..].to_vec())];
+                script.insert((i % 3) as usize, Msg::TextOf(t.clone()));
+                acc.eval();
+                let replay = json!({"site": "text-contents", "index": i, "text_bytes": t.len(), "position": i % 3});
+                judge_adaptor(acc, i, guard(|| adaptor_reads(script, stream.len(), 64)), &stream, &format!("a text message of {} bytes ({:?}...) at position {}", t.len(), t.chars().take(6).collect::<String>(), i % 3), replay);
+            }));
+    }
     // 1b. non-binary messages (text, ping, empty binary) interleaved at every boundary, budget 2
     {
         let stream: Vec<u8> = (0..6).map(|i| 0x61 + i as u8).collect();
@@ -523,7 +549,7 @@ pub fn sites(tier: Tier) -> Vec<Site> {
                 let script = scripts[(i / 2) as usize].clone();
                 let size = if i % 2 == 0 { 3 } else { 64 };
                 acc.eval();
-                let desc = format!("{:?} read size {size}", script.iter().map(|m| match m { Msg::Bin(b) => format!("bin{}", b.len()), Msg::Text => "text".into(), Msg::Ping => "ping".into() }).collect::<Vec<_>>());
+                let desc = format!("{:?} read size {size}", script.iter().map(|m| match m { Msg::Bin(b) => format!("bin{}", b.len()), Msg::Text => "text".into(), Msg::TextOf(t) => format!("text{}", t.len()), Msg::Ping => "ping".into() }).collect::<Vec<_>>());
                 let replay = json!({"site": "adaptor-interleaved", "index": i, "script": desc});
                 let stream: Vec<u8> = (0..6).map(|i| 0x61 + i as u8).collect();
                 judge_adaptor(acc, i, guard(|| adaptor_reads(script, 6, size)), &stream, &desc, replay);
